@@ -25,6 +25,21 @@ CLAIMS: dict[str, tuple[str, str, str, str]] = {
         "DESIGN.md §2 C10"),
 }
 
+CLAIMS["C13"] = (
+    "NaN-domain abstract interpretation of every FormulaStep.apply / MetricFetcher.apply AST "
+    "(fork-and-replay over undecided comparisons), plus guard-shape rules",
+    "Abstract interpretation of the parsed source over {NaN, inf, finite-symbolic}: for every step "
+    "class and every subset of its operands being NaN, all abstract paths push NaN and none "
+    "raises (division by a possibly-zero operand is a raise); MetricFetcher.apply is interpreted "
+    "for None/NaN/inf/valid x nones_are_zeros; the evaluator's NaN/inf -> None mapping, flag "
+    "forwarding in the builders and send-every-sample in the engine loop are guard/path rules. "
+    "Exhaustive over the abstract domain for the steps defined in the tree; it decides "
+    "propagation of missing values per operator, not float rounding.",
+    "Trusted: IEEE-754/CPython float facts encoded in sa/engine/nandomain.py (NaN comparisons "
+    "false, x/0 raises, builtin max/min argument-order behaviour); overflow of finite operands "
+    "ignored.",
+    "DESIGN.md §2 C13")
+
 PENDING_REASON = ("no static check is registered for this property yet in this revision of the "
                   "machinery (planned rules are in DESIGN.md §2); nothing is claimed for it")
 
